@@ -731,7 +731,7 @@ MANIFEST_ENTRY = dict(
     text='Proved for all inputs (2-3 parameters, all eps != 0): hessian_elem returns H_ij on every quadratic in all four branches, get_grad is '
          'exact on quadratics (central) and linear functions (one-sided), get_hess is exact on every step-rule path and hands hessian_elem the '
          'documented step sizes; p0/eps are not mutated and the perturbed vectors are float arrays whatever element type the caller passes; sum_chi2_ppf reads no unassigned local for scalar or array input; multinomial theta '
-         'augmentation and the H/J/cU/G assembly are wired as documented; the likelihood closure is ll(adjust * model, data) with the model evaluated once '
+         'augmentation and the H/J/cU/G assembly are wired as documented and leave their arguments (incl. an empty boot_theta_adjusts list) untouched; the likelihood closure is ll(adjust * model, data) with the model evaluated once '
          'per point and the cached spectrum left unmodified. Closed-form FIM/GIM/LRT/Wald/score values (O(eps^2)), bootstrap-order '
          'independence and cache-sharing call sequences are bounded run-time checks (not proofs).',
     note='floats as reals; proof for parameter counts 1-3 only (the code is generic in n; larger n is covered by the bounded driver); numpy.linalg/dot/outer opaque; E2 executor semantics',
